@@ -14,6 +14,7 @@ import (
 	"regexp"
 	"sort"
 	"strings"
+	"sync"
 	"time"
 
 	"nriverif/internal/ev"
@@ -41,7 +42,7 @@ func (e c18Entry) parts() (idx, base string, ok bool) {
 }
 
 func (e c18Entry) mode() string {
-	for _, m := range []string{"exitnow", "noreg", "syncfail", "dielater", "dropidle"} {
+	for _, m := range []string{"exitnow", "noreg", "syncfail", "cfgfail", "dielater", "dropidle"} {
 		if strings.Contains(e.File, m) {
 			return m
 		}
@@ -65,11 +66,13 @@ func c18Dirs(tier string, g *rand.Rand) [][]c18Entry {
 		[]c18Entry{{File: "10-good", Kind: "exec"}, {File: "20-dielater-c", Kind: "exec"}, {File: "30-also", Kind: "exec", ConfSpec: str(""), ConfGen: str("generic-not-used")}},
 		[]c18Entry{{File: "10-stubborn-a", Kind: "exec"}, {File: "20-good", Kind: "exec"}, {File: "30-stubborn-syncfail", Kind: "exec"}},
 		[]c18Entry{{File: "10-dropidle-a", Kind: "exec"}, {File: "20-good", Kind: "exec"}},
+		[]c18Entry{{File: "10-good", Kind: "exec"}, {File: "15-cfgfail-a", Kind: "exec", ConfGen: str("refused")}, {File: "30-also", Kind: "exec"}},
+		[]c18Entry{{File: "10-one", Kind: "exec"}, {File: "20-two", Kind: "exec"}, {File: "30-three", Kind: "exec"}, {File: "40-four", Kind: "exec"}, {File: "50-five", Kind: "exec"}},
 		[]c18Entry{{File: "10-foo", Kind: "exec", ConfSpec: str("specific-10-foo"), ConfGen: str("generic-foo")}, {File: "20-foo", Kind: "exec", ConfGen: str("generic-foo")}},
 		[]c18Entry{{File: "10-bar", Kind: "exec", ConfSpec: str("specific-10-bar")}, {File: "20-bar", Kind: "exec"}, {File: "30-bar", Kind: "exec", ConfSpec: str("specific-30-bar")}},
 		[]c18Entry{{File: "00-a", Kind: "exec"}, {File: "99-z", Kind: "exec"}, {File: "notes.txt", Kind: "noexec"}, {File: "1-short", Kind: "noexec"}, {File: "bin", Kind: "dir"}},
 	)
-	names := []string{"alpha", "alpha", "beta-x", "c", "logger", "stubborn-q", "dropidle-r", "very-long-name-with-many-dashes", "x.y", "UPPER", "exitnow-p", "noreg-p", "syncfail-p", "dielater-p"}
+	names := []string{"alpha", "alpha", "beta-x", "c", "logger", "stubborn-q", "dropidle-r", "very-long-name-with-many-dashes", "x.y", "UPPER", "exitnow-p", "noreg-p", "syncfail-p", "dielater-p", "cfgfail-p"}
 	for i := 0; i < tierN(tier, 12, 300); i++ {
 		var d []c18Entry
 		used := map[string]bool{}
@@ -183,6 +186,17 @@ func runC18Case(root, probe string, entries []c18Entry, tag string, res *ev.Resu
 		res.Note("runtime: %v", err)
 		return
 	}
+	var syncMu sync.Mutex
+	var syncUpd []string
+	syncCalls := 0
+	rt.SyncDone = func(u []*api.ContainerUpdate, err error) {
+		syncMu.Lock()
+		defer syncMu.Unlock()
+		syncCalls++
+		for _, x := range u {
+			syncUpd = append(syncUpd, x.GetContainerId())
+		}
+	}
 	var serr error
 	d := make(chan struct{})
 	go func() { defer close(d); serr = rt.Start() }()
@@ -269,7 +283,7 @@ func runC18Case(root, probe string, entries []c18Entry, tag string, res *ev.Resu
 	}
 	// configuration
 	for _, e := range launched {
-		if m := e.mode(); m == "exitnow" || m == "noreg" {
+		if m := e.mode(); m == "exitnow" || m == "noreg" || m == "cfgfail" {
 			continue
 		}
 		pid, ok := pids[e.File]
@@ -300,9 +314,30 @@ func runC18Case(root, probe string, entries []c18Entry, tag string, res *ev.Resu
 			viol("configuration/"+src, fmt.Sprintf("%s received configuration %q, want %q (drop-ins present: %s)", e.File, got["config"], want, src))
 		}
 	}
+	// the updates the plugins return from the start-up synchronization reach the runtime: one per plugin
+	// that was synchronized, none lost, none twice
+	{
+		var want []string
+		for _, e := range launched {
+			if m := e.mode(); m == "" || m == "dielater" || m == "dropidle" {
+				want = append(want, "syncupd-"+e.File)
+			}
+		}
+		sort.Strings(want)
+		syncMu.Lock()
+		got := append([]string(nil), syncUpd...)
+		calls := syncCalls
+		syncMu.Unlock()
+		sort.Strings(got)
+		if calls == 1 && strings.Join(got, ",") != strings.Join(want, ",") {
+			viol("sync-updates", fmt.Sprintf("updates returned by the pre-installed plugins' synchronization handlers that reached the runtime: %v, want one per synchronized plugin: %v", got, want))
+		} else if calls != 1 {
+			res.Note("%s: the runtime's synchronization function ran %d times during Start", tag, calls)
+		}
+	}
 	// dropped plugins are killed
 	for _, e := range launched {
-		if m := e.mode(); m == "noreg" || m == "syncfail" {
+		if m := e.mode(); m == "noreg" || m == "syncfail" || m == "cfgfail" {
 			if pid, ok := pids[e.File]; ok {
 				st := procState(pid)
 				for i := 0; i < 200 && st != "gone" && st != "Z"; i++ {
@@ -310,7 +345,7 @@ func runC18Case(root, probe string, entries []c18Entry, tag string, res *ev.Resu
 					st = procState(pid)
 				}
 				if st != "gone" && st != "Z" {
-					viol("dropped-not-killed/"+m, fmt.Sprintf("%s (pid %d) failed to %s and was skipped, but its process is still running (state %s)", e.File, pid, map[string]string{"noreg": "register", "syncfail": "synchronize"}[m], st))
+					viol("dropped-not-killed/"+m, fmt.Sprintf("%s (pid %d) failed to %s and was skipped, but its process is still running (state %s)", e.File, pid, map[string]string{"noreg": "register", "syncfail": "synchronize", "cfgfail": "be configured"}[m], st))
 				}
 			}
 		}
